@@ -1697,11 +1697,14 @@ pub fn gen_plan_exact(seed: u64, thorough: bool, pool: &[Pos], mates: &[(Pos, u3
         // engine that kept the positions it was told before would see repetitions where, for a
         // position given as a bare FEN, there are none
         let shuffle = if rng.chance(1, 2) && !imbalanced.is_empty() { repetition_game(&mut rng, imbalanced) } else { None };
+        let whole = shuffle.is_some();
         let game = match shuffle {
             Some(g) => g,
             None => random_game(&mut rng, pool, 14, true),
         };
-        let from = game.line.len().saturating_sub(if thorough { 10 } else { 6 });
+        // a shuffle is walked from its first position (every repetition of it is then something the
+        // engine was told before), other games over their last positions
+        let from = if whole { 0 } else { game.line.len().saturating_sub(if thorough { 10 } else { 6 }) };
         let mut cycles = Vec::new();
         for (k, p) in game.line[from..].iter().enumerate() {
             if !p.has_legal_move() || p.half > 40 {
